@@ -28,9 +28,8 @@ type c07Scenario struct {
 	ID   int `json:"id"`
 	Orig int `json:"orig,omitempty"`
 	Cfg  struct {
-		Dict     bool `json:"dict"`
-		Limit    int  `json:"limit"`
-		Presized bool `json:"presized"`
+		Dict  bool `json:"dict"`
+		Limit int  `json:"limit"`
 	} `json:"cfg"`
 	Ops  []c07Op `json:"ops"`
 	Type string  `json:"type,omitempty"`
@@ -96,8 +95,9 @@ func c07Values(typ string, tok, salt int) []parquet.Value {
 	return out
 }
 
-var c07Paths = []string{"rows", "colwriter"}
-var c07PresizedPaths = []string{"buffer", "file-copy", "file-reencode"}
+// "mixed": pages before a "wrg" op are written directly (pending row group); the pages after it are
+// collected in a buffer that is handed to Writer.WriteRowGroup. The other paths treat "wrg" as a flush.
+var c07Paths = []string{"mixed", "rows", "colwriter", "mixed", "file-copy", "file-reencode"}
 
 func c07Main(args []string) error {
 	seed, _ := strconv.ParseUint(argValue(args, "--seed", "1"), 10, 64)
@@ -139,13 +139,9 @@ func c07Run(tr *tracer, sc *c07Scenario, typ string, variant int) {
 	codec := []string{"none", "snappy", "gzip"}[take(3)]
 	ver := 1 + take(2)
 	salt := take(5)
-	var path string
-	if sc.Cfg.Presized {
-		path = c07PresizedPaths[take(len(c07PresizedPaths))]
-	} else {
-		path = c07Paths[take(len(c07Paths))]
-	}
+	path := c07Paths[take(len(c07Paths))]
 	prefetch := take(2) == 1
+	tinyPages := take(2) == 1
 
 	node := parquet.Leaf(c07Leaf(typ))
 	if sc.Cfg.Dict {
@@ -156,7 +152,11 @@ func c07Run(tr *tracer, sc *c07Scenario, typ string, variant int) {
 	}
 	schema := parquet.NewSchema("c07", parquet.Group{"v": node})
 	mkOpts := func(codec string, withBloom bool) []parquet.WriterOption {
-		opts := []parquet.WriterOption{schema, parquet.DataPageVersion(ver), parquet.PageBufferSize(1 << 20)}
+		pageBuf := 1 << 20
+		if tinyPages {
+			pageBuf = 24 // WriteRowGroup then cuts several pages per row group
+		}
+		opts := []parquet.WriterOption{schema, parquet.DataPageVersion(ver), parquet.PageBufferSize(pageBuf)}
 		if withBloom {
 			opts = append(opts, parquet.BloomFilters(parquet.SplitBlockFilter(bits, "v")))
 			if deferred {
@@ -175,7 +175,7 @@ func c07Run(tr *tracer, sc *c07Scenario, typ string, variant int) {
 		return opts
 	}
 	tr.begin(ev{"sc": sc.ID, "type": typ, "var": variant, "path": path, "cfg": sc.Cfg,
-		"opt": ev{"optional": optional, "bits": bits, "deferred": deferred, "gzipFilter": gz, "codec": codec, "ver": ver, "prefetch": prefetch}})
+		"opt": ev{"optional": optional, "bits": bits, "deferred": deferred, "gzipFilter": gz, "codec": codec, "ver": ver, "prefetch": prefetch, "tinyPages": tinyPages}})
 
 	d := 0
 	if optional {
@@ -199,7 +199,7 @@ func c07Run(tr *tracer, sc *c07Scenario, typ string, variant int) {
 		switch op.Op {
 		case "page":
 			groups[len(groups)-1] = append(groups[len(groups)-1], op.Vals)
-		case "flush":
+		case "flush", "wrg":
 			groups = append(groups, [][]int{})
 		}
 	}
@@ -237,23 +237,59 @@ func c07Run(tr *tracer, sc *c07Scenario, typ string, variant int) {
 		switch path {
 		case "rows", "colwriter":
 			werr = writeDirect(out, mkOpts(codec, true), path)
-		case "buffer":
+		case "mixed":
 			w := parquet.NewWriter(out, mkOpts(codec, true)...)
-			for _, g := range groups {
-				if len(g) == 0 {
-					continue
+			var pending *parquet.Buffer // rows collected for WriteRowGroup
+			commit := func() error {
+				if pending != nil {
+					b := pending
+					pending = nil
+					if b.NumRows() > 0 {
+						_, err := w.WriteRowGroup(b)
+						return err
+					}
 				}
-				b := parquet.NewBuffer(schema)
-				for _, page := range g {
-					if _, err := b.WriteRows(rowsOf(page)); err != nil {
+				return nil
+			}
+			for _, op := range sc.Ops {
+				switch op.Op {
+				case "page":
+					rows := rowsOf(op.Vals)
+					if pending != nil {
+						if _, err := pending.WriteRows(rows); err != nil {
+							werr = err
+							return
+						}
+						continue
+					}
+					if _, err := w.WriteRows(rows); err != nil {
 						werr = err
 						return
 					}
+					if err := w.ColumnWriters()[0].Flush(); err != nil {
+						werr = err
+						return
+					}
+				case "flush":
+					if err := commit(); err != nil {
+						werr = err
+						return
+					}
+					if err := w.Flush(); err != nil {
+						werr = err
+						return
+					}
+				case "wrg":
+					if err := commit(); err != nil {
+						werr = err
+						return
+					}
+					pending = parquet.NewBuffer(schema)
 				}
-				if _, err := w.WriteRowGroup(b); err != nil {
-					werr = err
-					return
-				}
+			}
+			if err := commit(); err != nil {
+				werr = err
+				return
 			}
 			werr = w.Close()
 		case "file-copy", "file-reencode":
